@@ -285,22 +285,35 @@ func c20Drive(args []string) int {
  "transform_declarations": {"FINAL_OUTPUT": {"xpath": "/*", "object": {
    "p_ref": {"custom_func": {"name": "javascript", "args": [{"const": "_node.length > 0 ? 'sees the record' : 'empty'"}]}}}}}}`
 	depIn := `[{"i": "7", "s": "x"}, {"i": "0", "s": "yy", "more": [1, 2, 3]}, {"s": "é"}]`
+	// the same call evaluated on the record and below an object anchored on an ancestor that outlives the record: its
+	// arguments are those of the present record every time
+	ancSchema := `{"parser_settings": {"version": "omni.2.1", "file_format_type": "xml"},
+ "transform_declarations": {"FINAL_OUTPUT": {"xpath": "/root/rec", "object": {
+   "on_record": {"custom_func": {"name": "javascript", "args": [{"const": "'T:' + q"}, {"const": "q"}, {"xpath": "qty"}]}},
+   "on_ancestor": {"xpath": "..", "object": {
+      "label": {"custom_func": {"name": "javascript", "args": [{"const": "'T:' + q"}, {"const": "q"}, {"xpath": "rec/qty"}]}},
+      "ctx": {"custom_func": {"name": "javascript_with_context", "args": [{"const": "q + '/' + h"}, {"const": "q"}, {"xpath": "rec/qty"}, {"const": "h"}, {"xpath": "hdr"}]}}}}}}}}`
+	ancIn := `<root><hdr>H</hdr><rec><qty>3</qty></rec><rec><qty>7.5</qty></rec><rec><qty>1</qty></rec></root>`
 	for _, d := range []struct {
-		name, schema string
-		want         []string
+		name, schema, in string
+		want             []string
 	}{
-		{"what a call sees", depSchema, []string{
+		{"a call below an object anchored on an ancestor", ancSchema, ancIn, []string{
+			`ok {"on_ancestor":{"ctx":"3/H","label":"T:3"},"on_record":"T:3"}`,
+			`ok {"on_ancestor":{"ctx":"7.5/H","label":"T:7.5"},"on_record":"T:7.5"}`,
+			`ok {"on_ancestor":{"ctx":"1/H","label":"T:1"},"on_record":"T:1"}`}},
+		{"what a call sees", depSchema, depIn, []string{
 			`ok {"c_s":"x+","c_type":"string/undefined","p_arg":"x!","p_same":"k","p_type":"undefined/undefined/undefined"}`,
 			`ok {"c_s":"yy+","c_type":"string/undefined","p_arg":"yy!","p_same":"k","p_type":"undefined/undefined/undefined"}`,
 			`ok {"c_s":"é+","c_type":"string/undefined","p_arg":"é!","p_same":"k","p_type":"undefined/undefined/undefined"}`}},
-		{"a plain script that reads _node", refSchema, []string{"failed", "failed", "failed"}},
+		{"a plain script that reads _node", refSchema, depIn, []string{"failed", "failed", "failed"}},
 	} {
 		sch, e, p := newSchema([]byte(d.schema))
 		if e != nil || p != "" {
 			fmt.Println("error: c20 dependence schema rejected", e, p)
 			return 3
 		}
-		out := runTranscript(sch, strings.NewReader(depIn), RunOpts{MaxReads: 6})
+		out := runTranscript(sch, strings.NewReader(d.in), RunOpts{MaxReads: 6})
 		for k, w := range d.want {
 			got := "missing"
 			if k < len(out.Results) {
